@@ -147,8 +147,8 @@ func (r *EntityLocal) AddUseCaseSupport(
 	}
 
 	address := model.FeatureAddressType{
-		Device: r.address.Device,
-		Entity: r.address.Entity,
+		Device: r.Address().Device,
+		Entity: r.Address().Entity,
 	}
 
 	data.AddUseCaseSupport(address, actor, useCaseName, useCaseVersion, useCaseDocumemtSubRevision, useCaseAvailable, scenarios)
@@ -166,8 +166,8 @@ func (r *EntityLocal) HasUseCaseSupport(actor model.UseCaseActorType, useCaseNam
 	}
 
 	address := model.FeatureAddressType{
-		Device: r.address.Device,
-		Entity: r.address.Entity,
+		Device: r.Address().Device,
+		Entity: r.Address().Entity,
 	}
 
 	return data.HasUseCaseSupport(address, actor, useCaseName)
@@ -190,8 +190,8 @@ func (r *EntityLocal) SetUseCaseAvailability(
 	}
 
 	address := model.FeatureAddressType{
-		Device: r.address.Device,
-		Entity: r.address.Entity,
+		Device: r.Address().Device,
+		Entity: r.Address().Entity,
 	}
 
 	data.SetAvailability(address, actor, useCaseName, available)
@@ -215,8 +215,8 @@ func (r *EntityLocal) RemoveUseCaseSupport(
 	}
 
 	address := model.FeatureAddressType{
-		Device: r.address.Device,
-		Entity: r.address.Entity,
+		Device: r.Address().Device,
+		Entity: r.Address().Entity,
 	}
 
 	data.RemoveUseCaseSupport(address, actor, useCaseName)
@@ -237,8 +237,8 @@ func (r *EntityLocal) RemoveAllUseCaseSupports() {
 	}
 
 	address := model.FeatureAddressType{
-		Device: r.address.Device,
-		Entity: r.address.Entity,
+		Device: r.Address().Device,
+		Entity: r.Address().Entity,
 	}
 
 	data.RemoveUseCaseDataForAddress(address)
